@@ -403,3 +403,28 @@ mod tests {
         assert_eq!(load_all(slab2), vec![701, 901, 10]); // The last item should not be affected.
     }
 }
+
+/// Verification hook: drive the real `revisitable_group_by` iterators from outside the crate
+/// (the types are `pub(crate)`).  For each group, `on_group(key, len)` says how many of its items
+/// to pull (more than `len` means "until the group says None"); each pulled item goes to `on_item`.
+#[cfg(mmtk_verif)]
+pub fn verif_group_by<T, K, I, F, G, H>(iter: I, get_key: F, mut on_group: G, mut on_item: H)
+where
+    K: PartialEq + Copy,
+    I: Iterator<Item = T> + Clone,
+    F: FnMut(&T) -> K,
+    G: FnMut(K, usize) -> usize,
+    H: FnMut(T),
+{
+    for mut group in iter.revisitable_group_by(get_key) {
+        let want = on_group(group.key, group.len);
+        let mut pulled = 0;
+        while pulled < want {
+            match group.next() {
+                Some(item) => on_item(item),
+                None => break,
+            }
+            pulled += 1;
+        }
+    }
+}
